@@ -32,9 +32,11 @@ func checkNextIDReturnsTheCounter(c *Ctx, rule string) {
 	c.floor(rule, 1)
 }
 
-// checkSlotClearedAfterFetch (C11.R22): in Request.close a slot of the request's state is cleared (a setter called with
-// nil) only behind the fetch of the objects to close: cleared first, the object is never closed — neither by CLOSE nor
-// by the end-of-session sweep.
+// checkSlotClearedAfterFetch (C11.R22): in Request.close a slot of the request's state is cleared only behind the
+// fetch of the object to close: cleared first, the object is never closed — neither by CLOSE nor by the end-of-session
+// sweep.  A clearing is a setter of the state called with nil or a nil store to an interface field of the state; a
+// fetch is a getter of the state or a load of such a field; the rule asks that behind a clearing no fetch of the same
+// field is reachable.
 func checkSlotClearedAfterFetch(c *Ctx, rule string) {
 	p := c.P
 	fn := p.Func("(*Request).close")
@@ -44,48 +46,113 @@ func checkSlotClearedAfterFetch(c *Ctx, rule string) {
 	}
 	c.looked(fnName(fn))
 	isIface := func(t types.Type) bool { _, ok := t.Underlying().(*types.Interface); return ok }
-	isGetter := func(in ssa.Instruction) bool {
-		cc := callOf(in)
-		if cc == nil {
-			return false
+	stateField := func(addr ssa.Value) string {
+		t, name, _, ok := fieldOf(addr)
+		if !ok || typeName(t) != "state" {
+			return ""
 		}
-		f := cc.StaticCallee()
-		if f == nil || !inModule(f) || f.Signature.Recv() == nil || f.Signature.Params().Len() != 0 || f.Signature.Results().Len() == 0 {
-			return false
-		}
-		switch typeName(f.Signature.Recv().Type()) {
-		case "Request", "state":
-		default:
-			return false
-		}
-		for i := 0; i < f.Signature.Results().Len(); i++ {
-			if !isIface(f.Signature.Results().At(i).Type()) || isErrorType(f.Signature.Results().At(i).Type()) {
-				return false
+		if st := derefStruct(t); st != nil {
+			for i := 0; i < st.NumFields(); i++ {
+				if st.Field(i).Name() == name && isIface(st.Field(i).Type()) && !isErrorType(st.Field(i).Type()) {
+					return name
+				}
 			}
 		}
-		return true
+		return ""
 	}
-	n := 0
-	for _, in := range findInstrs(fn, func(in ssa.Instruction) bool {
+	// fields of the state a function (and what it calls, two levels) loads or sets to nil
+	var touched func(f *ssa.Function, clear bool, d int, out map[string]bool)
+	touched = func(f *ssa.Function, clear bool, d int, out map[string]bool) {
+		if f == nil || d > 2 || !inModule(f) {
+			return
+		}
+		eachInstr(f, func(in ssa.Instruction) {
+			switch x := in.(type) {
+			case *ssa.Store:
+				if clear {
+					if n := stateField(x.Addr); n != "" {
+						out[n] = true
+					}
+				}
+			case *ssa.UnOp:
+				if !clear {
+					if n := stateField(x.X); n != "" {
+						out[n] = true
+					}
+				}
+			}
+			if cc := callOf(in); cc != nil && cc.StaticCallee() != nil {
+				touched(cc.StaticCallee(), clear, d+1, out)
+			}
+		})
+	}
+	type ev struct {
+		in     ssa.Instruction
+		fields map[string]bool
+	}
+	var clears, fetches []ev
+	eachInstr(fn, func(in ssa.Instruction) {
+		switch x := in.(type) {
+		case *ssa.Store:
+			if n := stateField(x.Addr); n != "" && isNilConst(x.Val) {
+				clears = append(clears, ev{in, map[string]bool{n: true}})
+			}
+		case *ssa.UnOp:
+			if n := stateField(x.X); n != "" {
+				fetches = append(fetches, ev{in, map[string]bool{n: true}})
+			}
+		}
 		cc := callOf(in)
-		if cc == nil {
-			return false
+		if cc == nil || cc.StaticCallee() == nil || !inModule(cc.StaticCallee()) {
+			return
+		}
+		if _, isDefer := in.(*ssa.Defer); isDefer {
+			return
 		}
 		f := cc.StaticCallee()
-		if f == nil || !inModule(f) || f.Signature.Recv() == nil || f.Signature.Params().Len() != 1 || !isIface(f.Signature.Params().At(0).Type()) {
-			return false
-		}
 		args := argsOf(cc)
-		return len(args) == 1 && isNilConst(args[0])
-	}) {
-		n++
-		early := reachAvoiding(fn, in, isGetter, nil)
-		c.check(!early, rule, "slot cleared in Request.close by "+fnName(callOf(in).StaticCallee()), p.Pos(in.Pos()),
-			"no fetch of the objects to close is reachable behind the clearing",
-			"a slot of the request's state is cleared before the objects to close are fetched: the object that was in it is never closed")
+		if len(args) == 1 && isNilConst(args[0]) && isIface(args[0].Type()) {
+			m := map[string]bool{}
+			touched(f, true, 0, m)
+			if len(m) > 0 {
+				clears = append(clears, ev{in, m})
+			}
+			return
+		}
+		if f.Signature.Params().Len() == 0 && f.Signature.Results().Len() > 0 {
+			all := true
+			for i := 0; i < f.Signature.Results().Len(); i++ {
+				if !isIface(f.Signature.Results().At(i).Type()) || isErrorType(f.Signature.Results().At(i).Type()) {
+					all = false
+				}
+			}
+			if all {
+				m := map[string]bool{}
+				touched(f, false, 0, m)
+				if len(m) > 0 {
+					fetches = append(fetches, ev{in, m})
+				}
+			}
+		}
+	})
+	for _, cl := range clears {
+		early := false
+		for _, ft := range fetches {
+			same := false
+			for n := range cl.fields {
+				if ft.fields[n] {
+					same = true
+				}
+			}
+			if same && ft.in != cl.in && reachAvoiding(fn, cl.in, func(x ssa.Instruction) bool { return x == ft.in }, nil) {
+				early = true
+			}
+		}
+		c.check(!early, rule, "slot cleared in Request.close", p.Pos(cl.in.Pos()),
+			"no fetch of the cleared slot is reachable behind the clearing",
+			"a slot of the request's state is cleared before the object in it is fetched for closing: that object is never closed")
 	}
-	getters := findInstrs(fn, isGetter)
-	c.check(len(getters) > 0, rule, "Request.close fetches the objects it closes", p.Pos(fn.Pos()), fmt.Sprintf("%d getter calls", len(getters)), "no getter call found in Request.close")
+	c.okT(rule, "Request.close examined", p.Pos(fn.Pos()), fmt.Sprintf("%d clearings, %d fetches", len(clears), len(fetches)))
 	c.floor(rule, 1)
 }
 
@@ -273,26 +340,30 @@ func checkReplyEncodersDoNotRefuse(c *Ctx, rule string) {
 	c.floor(rule, 8)
 }
 
-// checkConnSendReturnsTheWritersError (C13.R24, shared as C04.R17): (*conn).sendPacket returns what the framing
-// function returned, on every path.  A short cut that returns the latched transport error bare hands an io.EOF from
-// the transport to ReadAt and WriteTo, which take it for the end of the file: a transfer cut by a lost connection
-// reports a short count with a nil error.
+// checkConnSendReturnsTheWritersError (C13.R24, shared as C04.R17): (*conn).sendPacket never hands out the latched
+// transport error as it is.  The framing function wraps what the writer reports; a short cut that returns the latch
+// field bare hands an io.EOF from the transport to ReadAt and WriteTo, which take it for the end of the file: a
+// transfer cut by a lost connection reports a short count with a nil error.  Decided on the results: no result of
+// (*conn).sendPacket is the load of an error-typed field of the connection.
 func checkConnSendReturnsTheWritersError(c *Ctx, rule string) {
 	p := c.P
 	fn := p.Func("(*conn).sendPacket")
-	sp := p.Func("sendPacket")
-	if fn == nil || sp == nil {
-		c.missing(rule, "(*conn).sendPacket / sendPacket")
+	if fn == nil {
+		c.missing(rule, "(*conn).sendPacket")
 		return
 	}
 	c.looked(fnName(fn))
 	n := 0
 	for _, lf := range returnLeavesDeep(fn, 0) {
 		n++
-		call, ok := lf.v.(*ssa.Call)
-		good := ok && call.Call.StaticCallee() == sp
-		c.check(good, rule, fmt.Sprintf("result #%d of (*conn).sendPacket", n), p.Pos(fn.Pos()), "the framing function's result",
-			"(*conn).sendPacket can return something else than what the framing function returned ("+lf.v.String()+"): a latched transport error handed out bare (io.EOF) is taken for the end of the file by the transfer loops")
+		bare := ""
+		if u, ok := lf.v.(*ssa.UnOp); ok {
+			if t, name, _, ok := fieldOf(u.X); ok && isErrorType(u.Type()) {
+				bare = typeName(t) + "." + name
+			}
+		}
+		c.check(bare == "", rule, fmt.Sprintf("result #%d of (*conn).sendPacket", n), p.Pos(fn.Pos()), "not the latch field itself",
+			"(*conn).sendPacket returns the latched transport error "+bare+" as it is: an io.EOF from the transport is taken for the end of the file by the transfer loops")
 	}
 	c.floor(rule, 1)
 }
